@@ -13,9 +13,9 @@ rm -f tests/seed_demo.rs
 echo "== suite with patch"; cargo test --offline 2>&1 | grep -E "^test result|FAILED|error(\[|:)" | sort | uniq -c | head
 cp $src/demo.rs tests/seed_demo.rs
 echo "== demo with patch (must fail)"; cargo test --offline --test seed_demo 2>&1 | grep -E "^test result|^test .* (ok|FAILED)|error(\[|:)" | head
-git stash -q -- src
+git apply -R /tmp/verify_$id.diff
 echo "== demo without patch (must pass)"; cargo test --offline --test seed_demo 2>&1 | grep -E "^test result|^test .* (ok|FAILED)|error(\[|:)" | head
-git stash pop -q
+git apply /tmp/verify_$id.diff
 rm -f tests/seed_demo.rs
 mkdir -p /verif/seeded/$id && cp /tmp/verify_$id.diff /verif/seeded/$id/patch.diff && cp $src/demo.rs /verif/seeded/$id/demo.rs && cp $src/meta.json /verif/seeded/$id/meta.json
 echo "== saved to /verif/seeded/$id"
